@@ -88,7 +88,7 @@ type WOpts struct {
 }
 
 var WireFeatures = []string{"bind", "bind-value-impl", "value", "ivalue", "struct", "struct-fields", "struct-value-consumer", "fieldsof", "fieldsof-value", "fieldsof-ptr",
-	"sets", "nested-sets", "inline-sets", "inline-sets-deep", "struct-unexported-field", "ext-alias-suffix", "ext-name-differs-from-path", "ext-alias-equals-directory", "composite", "same-name-packages-across-files", "fieldsof-twice", "second-injector", "twin-types-in-same-named-packages", "value-ext-var", "build-in-panic", "struct-field-named-like-package", "struct-field-named-like-type", "bind-two-interfaces", "wire-paren", "struct-keyword-field", "struct-noinject-tag", "struct-no-fields", "named-alias", "wire-import-alias", "wire-legacy-build-tag", "wire-sets-in-var-block", "value-ext-nested-selector", "decoy-constructor-in-migrated-package", "struct-in-ext-package", "fieldsof-in-ext-package", "err", "args", "unused-arg", "multi-file", "ext", "bind-foreign-ctor", "bind-split-set", "multi-result"}
+	"sets", "nested-sets", "inline-sets", "inline-sets-deep", "struct-unexported-field", "ext-alias-suffix", "ext-name-differs-from-path", "ext-alias-equals-directory", "composite", "same-name-packages-across-files", "fieldsof-twice", "second-injector", "twin-types-in-same-named-packages", "value-ext-var", "build-in-panic", "pkg-level-name-equals-aliased-package", "struct-field-named-like-package", "struct-field-named-like-type", "bind-two-interfaces", "wire-paren", "struct-keyword-field", "struct-noinject-tag", "struct-no-fields", "named-alias", "wire-import-alias", "wire-legacy-build-tag", "wire-sets-in-var-block", "value-ext-nested-selector", "decoy-constructor-in-migrated-package", "struct-in-ext-package", "fieldsof-in-ext-package", "err", "args", "unused-arg", "multi-file", "ext", "bind-foreign-ctor", "bind-split-set", "multi-result"}
 
 func WAllowAll(except ...string) map[string]bool {
 	m := map[string]bool{}
@@ -425,6 +425,15 @@ func GenWire(rt *rapid.T, o WOpts) *WCase {
 	}
 	g.assemble()
 	g.parens()
+	// a package-level identifier of the migrated package has the NAME of an external package that
+	// every file imports under an alias: a migrated file must not import it under its plain name
+	for i := range g.c.Exts {
+		e := &g.c.Exts[i]
+		if e.Alias != "" && e.Alias != e.Name && !g.used[e.Name] && len(g.c.Exts) == 1 && g.want("pkg-level-name-equals-aliased-package", "pkgname", 80) {
+			g.used[e.Name] = true
+			g.c.PkgNames = append(g.c.PkgNames, e.Name)
+		}
+	}
 	return g.w
 }
 
